@@ -15,13 +15,13 @@ structure StructBuild (N : Type) where
   slots : List (Slot N)
   count : Nat
   length : Nat
-  proto : JVal N
+  proto : List (JVal N)
 
 def emptySlot : Slot N := (.nil, .nil)
 
 /-- `janet_struct_begin(count)` (no overflow: count < 2^29) -/
 def structBegin (count : Nat) : StructBuild N :=
-  { slots := List.replicate (tablen (2 * count)) emptySlot, count := 0, length := count, proto := .nil }
+  { slots := List.replicate (tablen (2 * count)) emptySlot, count := 0, length := count, proto := [] }
 
 /-- is this key refused by `janet_struct_put_ext` (`isnan` test)?  The model has no NaN (see `NumLike`): a number that
     is not equal to itself plays that role. -/
@@ -87,11 +87,11 @@ def structEnd (st : StructBuild N) : JVal N :=
 
 /-- what `(struct/with-proto proto k₁ v₁ k₂ v₂ …)` / `(struct …)` / `table/to-struct` build:
     begin(`count`), the puts in order, the prototype, end -/
-def structOfCount (count : Nat) (kvs : List (Slot N)) (proto : JVal N) : JVal N :=
+def structOfCount (count : Nat) (kvs : List (Slot N)) (proto : List (JVal N)) : JVal N :=
   let st := kvs.foldl (fun acc kv => structPut acc kv.1 kv.2) (structBegin count)
   structEnd { st with proto := proto }
 
-def structOf (kvs : List (Slot N)) (proto : JVal N := .nil) : JVal N := structOfCount kvs.length kvs proto
+def structOf (kvs : List (Slot N)) (proto : List (JVal N) := []) : JVal N := structOfCount kvs.length kvs proto
 
 /-- `janet_struct_find`: slot index holding `key`, or of the first empty slot on its probe path -/
 def structFind (slots : List (Slot N)) (key : JVal N) : Option Nat :=
